@@ -17,7 +17,7 @@
 (***************************************************************************)
 EXTENDS Naturals, Sequences, FiniteSets
 
-MaxHops == 10
+MaxHops == 126    \* maxCompressionPointers of name.go: the deepest chain a compressing encoder can write for a 255-octet name
 Fail == [ok |-> FALSE]
 
 U16At(b, off) == b[off + 1] * 256 + b[off + 2]
